@@ -101,7 +101,10 @@ def run(ctx):
                 case = {'dataset': label, 'format': fmt, 'scaled_by_third': scaled, 'cells': len(polys), 'without_geometry': holes,
                         'placed': where}
                 ctx.case((label, scaled, fmt), holes > 0, sample=case if holes and len(ctx.samples) < 3 else None)
-                path = os.path.join(tmp, f'e{n}.{ {"geojson": "geojson", "shapefile": "shp", "wkt": "wkt", "wkb": "wkb"}[fmt] }')
+                # every other dataset is exported to a name with dots in its stem ('model.v2.0.shp'), next to an earlier export
+                # whose name is a prefix of it
+                stem = f'e{n}' if n % 2 == 0 else f'e{n - 1}.v2.0'
+                path = os.path.join(tmp, f'{stem}.{ {"geojson": "geojson", "shapefile": "shp", "wkt": "wkt", "wkb": "wkb"}[fmt] }')
                 with warnings.catch_warnings():
                     warnings.simplefilter('ignore')
                     r = attempt(getattr(geometry_ops, f'write_{fmt}'), ds, path)
